@@ -9,6 +9,8 @@ git apply "$patch" || { echo "patch does not apply"; exit 2; }
 export GOFLAGS=-mod=mod GOPROXY=off GOSUMDB=off
 if ! go build ./... ; then echo "SEED does not compile"; git checkout -- .; exit 2; fi
 cd /verif
+# evidence files are rewritten by every run: keep the ones of the unchanged tree
+evbak=$(mktemp -d /tmp/evbak.XXXXXX); cp evidence/*.json "$evbak"/ 2>/dev/null
 sd=$(dirname "$patch"); log=/dev/null
 case "$sd" in /verif/seeded/*) log="$sd/checks_${TIER:-quick}.log"; : > "$log";; esac
 for c in "$@"; do
@@ -18,4 +20,5 @@ for c in "$@"; do
   { echo "== $c rc=$rc violations=$v"
   echo "$out" | grep -E "VIOLATION|BROKEN|FAILURE|KNOWN" | cut -c1-300 | head -8; } | tee -a "$log"
 done
+cp "$evbak"/*.json /verif/evidence/ 2>/dev/null; rm -rf "$evbak"
 cd /repo && git checkout -- . && git status --short | head -3
